@@ -98,7 +98,7 @@ def HX_Eff(Arrangement, Ntu, c, Passes=None, Rows=None, Cmin_Phase=None):
         # Shell and Tube - One Shell Pass; 2,4,6, etc., Tube Passes Effectiveness
         elif Arrangement == HX.ShellTube.value:
             d = (1 + c**2) ** 0.5
-            eff = 2 / ((1 + c) + d**0.5 * Coth(Ntu * d / 2))
+            eff = 2 / ((1 + c) + d * Coth(Ntu * d / 2))
         # Condensing or Evaporating of One Fluid
         elif Arrangement == HX.CondEvap.value:
             eff = 1 - math.exp(-Ntu)
@@ -151,8 +151,8 @@ def HX_NTU(Arrangement, eff, c, Passes=None):
             Ntu = -math.log(1 + 1 / c * math.log(1 - eff * c))
         # Shell and Tube - One Shell Pass; 2,4,6, etc., Tube Passes NTU
         elif Arrangement == HX.ShellTube.value:
-            D1 = 1 + c - (1 + c**2) ** (1 / 4)
-            D2 = 1 + c + (1 + c**2) ** (1 / 4)
+            D1 = 1 + c - (1 + c**2) ** (1 / 2)
+            D2 = 1 + c + (1 + c**2) ** (1 / 2)
             Ntu = (1 + c**2) ** -0.5 * math.log((2 - eff * D1) / (2 - eff * D2))
         # Condensing or Evaporating of One Fluid
         elif Arrangement == HX.CondEvap.value:
